@@ -97,13 +97,30 @@ def quadrature_regions(prog: Program) -> Dict[str, Tuple[Poly, Poly, object, obj
           and (dotted(c.func) or "").split(".")[-1] == "dblquad"]
     if len(dq) != 2 or len(tables) != 2:
         raise AnalysisError("L1: dblquad calls / boundary tables of CustomCorrelations vanished")
+    def _dq_args(c):
+        """arguments of scipy.integrate.dblquad(func, a, b, gfun, hfun, ...) by name, whether
+        they were passed by keyword or by position"""
+        kw_ = dict(kw_of(c))
+        for name_, a_ in zip(("func", "a", "b", "gfun", "hfun"), c.args):
+            kw_.setdefault(name_, a_)
+        return kw_
     sigs = []
     for c in dq:
-        kw = kw_of(c)
+        kw = _dq_args(c)
+        if any(kw.get(k_) is None for k_ in ("a", "b", "gfun", "hfun")):
+            raise AnalysisError("L1: limits of a dblquad call of CustomCorrelations not found")
         sigs.append((norm(kw.get("a")), norm(kw.get("b")), norm(kw.get("gfun")), norm(kw.get("hfun"))))
     if sigs[0] != sigs[1]:
         raise AnalysisError(f"L1: real and imaginary dblquad integrate different regions: {sigs}")
-    kw = kw_of(dq[0])
+    kw = _dq_args(dq[0])
+    # the boundary functions held in locals first (`gfun = lower[shape]`)
+    once_ = {}
+    for st_ in walk_local(u.node):
+        if isinstance(st_, ast.Assign) and len(st_.targets) == 1 and isinstance(st_.targets[0], ast.Name):
+            once_.setdefault(st_.targets[0].id, []).append(st_.value)
+    for k_ in ("gfun", "hfun"):
+        if isinstance(kw.get(k_), ast.Name) and len(once_.get(kw[k_].id, [])) == 1:
+            kw[k_] = once_[kw[k_].id][0]
     if norm(kw["a"]) != "time_1" or norm(kw["b"]) != "time_2":
         raise AnalysisError("L1: dblquad outer limits are not (time_1, time_2)")
     gname = dotted(kw["gfun"].value) if isinstance(kw["gfun"], ast.Subscript) else None
@@ -615,10 +632,15 @@ def l4(prog: Program, chk: Check) -> None:
     for q in (f"{BC}:CustomSD.correlation", f"{BC}:CustomSD.eta_function"):
         u = prog.unit(q)
         tests = []
+        owner = {}
+        for fn_ in [f for f in ast.walk(u.node) if isinstance(f, ast.FunctionDef) and f is not u.node]:
+            for y in ast.walk(fn_):
+                owner[id(y)] = fn_
         for x in ast.walk(u.node):
             if isinstance(x, (ast.If, ast.IfExp)) and not _is_memo_test(
                     x.test, _memo_attrs(u), _memo_lookup_names(u, _memo_attrs(u))):
-                tests.append(norm(x.test))
+                fn_ = owner.get(id(x))
+                tests.append(norm(_test_written_out(fn_, x.test) if fn_ is not None else x.test))
         sigs[q] = tests
         # hard special case
         hard = [x for x in ast.walk(u.node) if isinstance(x, ast.If)
@@ -887,6 +909,30 @@ def _integrands(u: Unit) -> Dict[str, ast.AST]:
             out[label0] = write_out(rets[0].value)
             continue
         returned = {r.value.id for r in rets if isinstance(r.value, ast.Name)}
+        before = len(out)
+        by_paths = _integrand_paths(fn)
+        guards_ = [c for conds, _e in (by_paths or []) for c in conds]
+        if by_paths and len(by_paths) == 2 and len({norm(t) for (t, _b) in guards_}) == 1:
+            # the integrand evaluated along its two paths (temporaries, a one-armed `if` that
+            # re-binds a factor, the final return): the same two cases, however they are spelled
+            gt = guards_[0][0]
+            from oqv.canon import _Subst
+            small = _small_branch(gt)
+            if small is None and isinstance(gt, ast.Compare) and isinstance(gt.left, ast.Name):
+                # the tested quantity held in a local (`boltzmann > eps`): judge the expression
+                first = next((st_.value for st_ in fn.body if isinstance(st_, ast.Assign)
+                              and len(st_.targets) == 1 and isinstance(st_.targets[0], ast.Name)
+                              and st_.targets[0].id == gt.left.id), None)
+                if first is not None:
+                    import copy as _copy
+                    gt2 = _Subst({gt.left.id: first}).visit(_copy.deepcopy(gt))
+                    ast.fix_missing_locations(gt2)
+                    small = _small_branch(gt2)
+            for conds, e_ in by_paths:
+                br = conds[0][1]
+                exact = br if small is None else (br != small)
+                out[f"{label0}/{'guarded' if exact else 'overflow'}"] = write_out(e_)
+            continue
         for a in assigns:
             if returned and not any(isinstance(t, ast.Name) and t.id in returned for t in a.targets):
                 continue
@@ -899,6 +945,42 @@ def _integrands(u: Unit) -> Dict[str, ast.AST]:
                 out[f"{label0}/{'guarded' if exact else 'overflow'}"] = \
                     write_out(_inline_locals(fn, a, returned))
     return out
+
+
+def _integrand_paths(fn: ast.FunctionDef):
+    """[(conditions, returned expression with the locals written out)] for an integrand made of
+    plain assignments, if statements and returns; None when it contains anything else."""
+    import copy
+    from oqv.canon import _Subst
+    results = []
+
+    def run(stmts, env, conds) -> bool:
+        """False if unsupported; paths that return are recorded"""
+        for i, st in enumerate(stmts):
+            if isinstance(st, ast.Expr) and isinstance(st.value, ast.Constant):
+                continue
+            if isinstance(st, ast.Assign) and len(st.targets) == 1 and isinstance(st.targets[0], ast.Name):
+                v = _Subst(env).visit(copy.deepcopy(st.value))
+                env = dict(env)
+                env[st.targets[0].id] = v
+                continue
+            if isinstance(st, ast.Return) and st.value is not None:
+                e = _Subst(env).visit(copy.deepcopy(st.value))
+                ast.fix_missing_locations(e)
+                results.append((list(conds), e))
+                return True
+            if isinstance(st, ast.If):
+                rest = stmts[i + 1:]
+                t = _Subst({}).visit(copy.deepcopy(st.test))
+                ok1 = run(list(st.body) + rest, env, conds + [(st.test, True)])
+                ok2 = run(list(st.orelse) + rest, env, conds + [(st.test, False)])
+                return ok1 and ok2
+            return False
+        return True
+    ok = run(list(fn.body), {}, [])
+    if not ok or not results or len(results) > 4:
+        return None
+    return results
 
 
 def _inline_locals(fn: ast.FunctionDef, a: ast.Assign, returned: Set[str]) -> ast.AST:
@@ -1083,8 +1165,27 @@ def _small_branch(t: ast.AST) -> Optional[bool]:
     return None
 
 
+def _test_written_out(fn: ast.FunctionDef, test: ast.AST) -> ast.AST:
+    """the test with the closure's own once-assigned locals replaced by what they stand for
+    (`boltzmann = np.exp(-w / T) ... if boltzmann > eps`)"""
+    import copy
+    from oqv.canon import _Subst
+    counts: Dict[str, int] = {}
+    vals: Dict[str, ast.AST] = {}
+    for st in ast.walk(fn):
+        if isinstance(st, ast.Assign) and len(st.targets) == 1 and isinstance(st.targets[0], ast.Name):
+            counts[st.targets[0].id] = counts.get(st.targets[0].id, 0) + 1
+            vals[st.targets[0].id] = st.value
+    env = {k: v for k, v in vals.items() if counts[k] == 1}
+    t = copy.deepcopy(test)
+    for _ in range(3):
+        t = _Subst(env).visit(t)
+    ast.fix_missing_locations(t)
+    return t
+
+
 def _guard_tests(u: Unit) -> List[ast.AST]:
-    return [x.test for fn in ast.walk(u.node)
+    return [_test_written_out(fn, x.test) for fn in ast.walk(u.node)
             if isinstance(fn, ast.FunctionDef) and fn.name == "integrand"
             for x in ast.walk(fn) if isinstance(x, ast.If)
             and ("finfo" in norm(x.test) or "eps" in norm(x.test))]
@@ -1093,7 +1194,7 @@ def _guard_tests(u: Unit) -> List[ast.AST]:
 def _guard_symbol(u: Unit) -> Optional[str]:
     """EXP[..] symbol of the quantity the overflow guard bounds by machine precision."""
     for fn in [x for x in ast.walk(u.node) if isinstance(x, ast.FunctionDef) and x.name == "integrand"]:
-        for t in [x.test for x in ast.walk(fn) if isinstance(x, ast.If)]:
+        for t in [_test_written_out(fn, x.test) for x in ast.walk(fn) if isinstance(x, ast.If)]:
             if "finfo" not in norm(t) and "eps" not in norm(t):
                 continue
             for c in [x for x in ast.walk(t) if isinstance(x, ast.Call)
